@@ -1,4 +1,66 @@
-(* v2::async_manual_reset_event has no Coq model yet: the K1 unit is monitor-only (the property is
-   evaluated directly on the implementation's runs by harness/k1_event_v2.cpp); this handler stands
-   in for the model with an empty trace so that the generic K1 machinery can be reused. *)
-let () = Registry.register "eventv2_none" (fun _ -> " # no model (monitor-only unit)")
+(* v2::async_manual_reset_event: lock-step handler for model EventV2 (coq/Proto/EventV2Defs.v).
+   eventv2 <fixed 0|1> <sig0 0|1> <prog> <prog> ... | tid tid ...
+   prog: string over S (set) R (reset) Y (ready) W<d> (start wait d) X<d> (request stop on the source of
+   wait d); any other character (K = the driver's kick, '-') is skipped, so a K-only thread is an empty program. *)
+open Model
+open Conv
+open EventV2
+let parse_prog (s : string) : cmd list =
+  let n = String.length s in
+  let rec go i acc =
+    if i >= n then List.rev acc else
+      match s.[i] with
+      | 'S' -> go (i + 1) (CSet :: acc)
+      | 'R' -> go (i + 1) (CReset :: acc)
+      | 'Y' -> go (i + 1) (CReady :: acc)
+      | 'W' -> go (i + 2) (CWait (nat_of_int (Char.code s.[i + 1] - 48)) :: acc)
+      | 'X' -> go (i + 2) (CStop (nat_of_int (Char.code s.[i + 1] - 48)) :: acc)
+      | _ -> go (i + 1) acc in
+  go 0 []
+let b01 b = if b then "1" else "0"
+let n2s n = string_of_int (int_of_nat n)
+let hv = function VNil -> "NIL" | VLatch -> "LATCH" | VW w -> "w" ^ n2s w
+let render = function
+  | EReg (w, inl) -> Printf.sprintf "w%s register%s" (n2s w) (if inl then " inline" else "")
+  | ECsOr (w, o, n) -> Printf.sprintf "w%s.state O.acq_rel %s->%s" (n2s w) (n2s o) (n2s n)
+  | ECsLd (w, v) -> Printf.sprintf "w%s.state L.acq %s" (n2s w) (n2s v)
+  | EHeadAcq v -> Printf.sprintf "evt.head C.acq %s->%s|1 ok" (hv v) (hv v)
+  | EHeadRel v -> "evt.head S.rel " ^ hv v
+  | EHeadLd l -> "evt.head L.acq " ^ (if l then "LATCH" else "-")
+  | EReady b -> "ready=" ^ b01 b
+  | ESyncLd (w, v) -> Printf.sprintf "w%s.sync L.acq %s" (n2s w) (b01 v)
+  | ESyncSt w -> Printf.sprintf "w%s.sync S.rel 1" (n2s w)
+  | ESplice w -> Printf.sprintf "w%s.self S.rel LOCAL" (n2s w)
+  | ETake w -> Printf.sprintf "w%s.self S.rlx 0" (n2s w)
+  | EPopNone -> "set returned"
+  | ERemove (w, true) -> Printf.sprintf "w%s.self S.rlx 0" (n2s w)
+  | ERemove (w, false) -> Printf.sprintf "w%s.self L.acq 0" (n2s w)
+  | EDereg w -> Printf.sprintf "w%s deregister" (n2s w)
+  | EHandoff w -> Printf.sprintf "w%s handoff" (n2s w)
+  | EValue w -> Printf.sprintf "w%s value" (n2s w)
+  | EDone w -> Printf.sprintf "w%s done" (n2s w)
+  | EReq (w, r) -> Printf.sprintf "w%s stop_requested reg=%s" (n2s w) (b01 r)
+  | ECbRet w -> Printf.sprintf "w%s callback_returned" (n2s w)
+let rec split_bar acc = function
+  | "|" :: r -> (List.rev acc, r)
+  | x :: r -> split_bar (x :: acc) r
+  | [] -> (List.rev acc, [])
+let str_out = function OValue -> "value" | ODone -> "done"
+let str_how = function None -> "-" | Some HLatched -> "latched" | Some HDrained -> "drained" | Some HRemoved -> "removed"
+let () =
+  Registry.register "eventv2" (fun args ->
+    match args with
+    | fx :: sig0 :: rest ->
+      let (progs, tids) = split_bar [] rest in
+      let init = EventV2.init (fx = "1") (sig0 = "1") (List.map parse_prog progs) in
+      let step t s = EventV2.step (nat_of_int t) s in
+      let (st, tr) = Lockstep.run step render init (ints_of_words tids) in
+      Printf.sprintf "%s # quiescent=%s stuck=%s latched=%s hl=%s evl=[%s] ops=%s late=%d/%d/%d" tr
+        (b01 (EventV2.quiescent st)) (b01 (EventV2.stuck st)) (b01 st.latched) (b01 (st.hl <> HFree)) (str_list n2s st.evl)
+        (String.concat "/" (List.mapi (fun i o ->
+             Printf.sprintf "w%d:%s:%s:req%s" i (str_how o.o_how) (str_list str_out (List.rev o.o_res)) (b01 o.o_req)) st.ops))
+        (int_of_nat st.late_state) (int_of_nat st.late_self) (int_of_nat st.late_other)
+    | _ -> "ERR args");
+  (* units/event.py EventV2Logic / EventV2Lifetime are monitor-only (the property is evaluated directly on
+     the implementation's runs by harness/k1_event_v2.cpp): an empty model trace for the generic K1 machinery *)
+  Registry.register "eventv2_none" (fun _ -> " # no model (monitor-only unit)")
